@@ -509,7 +509,7 @@ SPECS.update({
                  "B = csproto.Marshal(m), the write cursor (verif accessor) must advance by exactly that; Decoder.DecodeNested must consume exactly the field (reference walker extent), yield an equal message / the payload, return a failing nested "
                  "marshaler's / unmarshaler's error unchanged without moving the cursor, and reject a declared length beyond the buffer without invoking the nested decoder (stub counts invocations); "
                  "distinct by (nested kind, position, payload size class)"),
-        "explanation": "failing stubs are injected for every 7th stub case (MarshalTo error, Marshal error, Unmarshal error); every field is also decoded into a value of an unsupported type (must be refused, also for an empty payload) and, for generated/plain types, into a destination that already holds another value; every nested field is also decoded from a hand-made encoding with an over-long (valid) length prefix followed by another field; every generated/plain case is repeated with a second object of the same contents that nobody has sized or marshaled before (expected bytes taken from its twin), so that no size cache of the owning runtime is warm when EncodeNested sees it; the over-declared length is tried in both decoder modes, with and without spare capacity behind the input slice, with panics recovered and the cursor checked",
+        "explanation": "failing stubs are injected for every 7th stub case (MarshalTo error, Marshal error, Unmarshal error); a nested value whose own csproto.Marshal fails is not dropped: EncodeNested must then fail too (eight runtime-only children without fast-marshal code - invalid UTF-8 in StringValue/Struct, unset required fields of descriptor messages of protobuf-go and gogo, shallow and one level down, with and without bytes produced next to the error - in all four positions); every field is also decoded into a value of an unsupported type (must be refused, also for an empty payload) and, for generated/plain types, into a destination that already holds another value; every nested field is also decoded from a hand-made encoding with an over-long (valid) length prefix followed by another field; every generated/plain case is repeated with a second object of the same contents that nobody has sized or marshaled before (expected bytes taken from its twin), so that no size cache of the owning runtime is warm when EncodeNested sees it; the over-declared length is tried in both decoder modes, with and without spare capacity behind the input slice, with panics recovered and the cursor checked",
         "assumptions": TRUST_GEN + TRUST_WIRE[2:],
     },
 })
